@@ -1,3 +1,5 @@
+//go:build verif
+
 package main
 
 // replay-layout: steps TLC-generated behaviours of specs/Layout.tla through a real shard and compares
@@ -11,10 +13,15 @@ import (
 	"os"
 	"sort"
 	"strings"
+	"time"
+
+	"path/filepath"
 
 	"github.com/openGemini/openGemini/engine/immutable"
+	"github.com/openGemini/openGemini/engine/index/tsi"
 	"github.com/openGemini/openGemini/lib/util/lifted/influx/influxql"
 	"github.com/openGemini/openGemini/lib/util/lifted/vm/protoparser/influx"
+	"verifharness/internal/crashfs"
 	"verifharness/internal/engx"
 )
 
@@ -41,22 +48,29 @@ type specStep struct {
 }
 
 type layoutCase struct {
-	ID   int        `json:"id"`
-	Seed int64      `json:"seed"`
-	Hist []specStep `json:"hist"`
+	ID    int        `json:"id"`
+	Seed  int64      `json:"seed"`
+	Hist  []specStep `json:"hist"`
+	Crash bool       `json:"crash"` // C03: freeze a crash image after every fs mutation of each reorganisation
 }
 
 type caseResult struct {
-	ID     int    `json:"id"`
-	OK     bool   `json:"ok"`
-	Step   int    `json:"step"`
-	Action string `json:"action,omitempty"`
-	Detail string `json:"detail,omitempty"`
-	Reads  int    `json:"reads"`
-	Drift  int    `json:"drift"`
-	Infra  string `json:"infra,omitempty"`
-	Known  string `json:"known,omitempty"` // id of the known finding this divergence was attributed to
-	Hang   bool   `json:"hang,omitempty"`
+	ID                int                        `json:"id"`
+	OK                bool                       `json:"ok"`
+	Step              int                        `json:"step"`
+	Action            string                     `json:"action,omitempty"`
+	Detail            string                     `json:"detail,omitempty"`
+	Reads             int                        `json:"reads"`
+	Drift             int                        `json:"drift"`
+	Infra             string                     `json:"infra,omitempty"`
+	Known             string                     `json:"known,omitempty"`             // id of the known finding this divergence was attributed to
+	KnownReadErrors   int                        `json:"known_read_errors,omitempty"` // F-C02-2 occurrences (query retried)
+	Images            int                        `json:"images"`                      // crash images restored and re-opened (C03)
+	Nested            int                        `json:"nested"`
+	Reorgs            int                        `json:"reorgs"` // reorganisations that actually replaced files
+	IndexInconclusive int                        `json:"index_inconclusive"`
+	Tev               [][]map[string]interface{} `json:"tev,omitempty"` // per reorganisation: spec-level fs event trace
+	Hang              bool                       `json:"hang,omitempty"`
 }
 
 // ---- deviation model "wal_replay_round_robin_from_0" (known finding F-C01-1) -------------------
@@ -287,6 +301,12 @@ func readCheck(e *engx.Env, c *layoutConc, exp []specObs, fs []string, tmin, tma
 		reqs = append(reqs, c.fields[f].req())
 	}
 	rows, err := e.Read("m", reqs, []string{"host", "zone"}, tmin, tmax, asc)
+	if err != nil && strings.Contains(err.Error(), "slice bounds out of range [4294967288:0]") {
+		// known finding F-C02-2: ReadMetaBlock fails (EINVAL) and ChunkMeta goes on to index the empty
+		// block; the query fails with a recovered panic. Intermittent; a retry must succeed.
+		knownReadErrors++
+		rows, err = e.Read("m", reqs, []string{"host", "zone"}, tmin, tmax, asc)
+	}
 	if err != nil {
 		return "read error: " + err.Error()
 	}
@@ -300,7 +320,33 @@ func readCheck(e *engx.Env, c *layoutConc, exp []specObs, fs []string, tmin, tma
 		got = append(got, strings.Join(parts, "|"))
 		if lt, ok := lastT[r.Series]; ok {
 			if (asc && r.Time <= lt) || (!asc && r.Time >= lt) {
-				return fmt.Sprintf("rows of series %s not strictly sorted by time (asc=%v): %d after %d", r.Series, asc, r.Time, lt)
+				dump := ""
+				for _, x := range rows {
+					dump += fmt.Sprintf(" [%s %d", x.Series, (x.Time-timeBase)/timeStep)
+					for i, f := range fs {
+						dump += " " + c.fields[f].cellString(x.Vals[i])
+					}
+					dump += "]"
+				}
+				if idx, ok := e.Shard().GetIndexBuilder().GetPrimaryIndex().(*tsi.MergeSetIndex); ok {
+					for _, sname := range []string{"s1", "s2"} {
+						rr := engx.MakeRows([]engx.Pt{{Mst: "m", Tags: seriesTags(sname), Time: 1}})
+						sid, _ := idx.GetSeriesIdBySeriesKey(rr[0].IndexKey)
+						sq := e.Store().Sequencer()
+						lf, rc := sq.Get("m_0000", sid)
+						dump += fmt.Sprintf(" {seq %s sid=%d lastFlush=%d rows=%d loading=%v}", sname, sid, (lf-timeBase)/timeStep, rc, sq.IsLoading())
+						sq.UnRef()
+					}
+				}
+				for _, ord := range []bool{true, false} {
+					if fsx, ok := e.Shard().GetTSSPFiles("m_0000", ord); ok && fsx != nil {
+						for _, f := range fsx.Files() {
+							mn, mx, _ := f.MinMaxTime()
+							dump += fmt.Sprintf(" {file %s order=%v t=[%d,%d]}", filepath.Base(f.Path()), ord, (mn-timeBase)/timeStep, (mx-timeBase)/timeStep)
+						}
+					}
+				}
+				return fmt.Sprintf("rows of series %s not strictly sorted by time (asc=%v): %d after %d; all rows:%s", r.Series, asc, r.Time, lt, dump)
 			}
 		}
 		lastT[r.Series] = r.Time
@@ -312,6 +358,17 @@ func readCheck(e *engx.Env, c *layoutConc, exp []specObs, fs []string, tmin, tma
 	}
 	return ""
 }
+
+func describeEvent(events []crashfs.Event, n int) string {
+	for _, ev := range events {
+		if ev.N == n {
+			return fmt.Sprintf("%s %s %s", ev.Op, ev.Class, filepath.Base(ev.Path))
+		}
+	}
+	return "?"
+}
+
+var knownReadErrors int
 
 func withCompaction(e *engx.Env, f func(st *immutable.MmsTables) error) error {
 	sh := e.Shard()
@@ -347,10 +404,13 @@ func runLayoutCase(lc *layoutCase, root string) (res caseResult) {
 	}
 	dir := fmt.Sprintf("%s/c%d", root, lc.ID)
 	wp := 1
-	if rng.Intn(10) < 3 {
+	if rng.Intn(10) < 3 && !lc.Crash {
 		wp = 2 + rng.Intn(2)
 	}
-	opts := engx.Options{WalParts: wp, MaxRowsPerSegment: []int{0, 2, 3}[rng.Intn(3)]}
+	opts := engx.Options{WalParts: wp, MaxRowsPerSegment: []int{0, 2, 3, 5}[rng.Intn(4)]}
+	if v := os.Getenv("VH_SEG"); v != "" {
+		fmt.Sscanf(v, "%d", &opts.MaxRowsPerSegment)
+	}
 	e, err := engx.Open(dir, opts)
 	if err != nil {
 		res.Infra = "open: " + err.Error()
@@ -367,6 +427,172 @@ func runLayoutCase(lc *layoutCase, root string) (res caseResult) {
 	seen := map[string]bool{}
 	wm := newWalModel(opts.WalParts)
 	var unflushed [][]specRow
+	// doCompact runs one reorganisation; in crash mode (C03) it freezes an image after every data
+	// mutation of the reorganisation, then restarts on each image and requires the contents the
+	// shard had before the reorganisation began.
+	doCompact := func(st specStep, f func(s *immutable.MmsTables) error) error {
+		if !lc.Crash {
+			return withCompaction(e, f)
+		}
+		rec := crashfs.Install()
+		imgRoot := dir + "-img"
+		defer os.RemoveAll(imgRoot)
+		type img struct {
+			dir string
+			n   int
+		}
+		var imgs []img
+		rec.Start(dir)
+		rec.After = func(ev crashfs.Event) {
+			if ev.N == 0 || ev.Class == "wal" {
+				return
+			}
+			d := filepath.Join(imgRoot, fmt.Sprintf("i%d", ev.N))
+			if engx.CopyTree(dir, d) == nil {
+				imgs = append(imgs, img{d, ev.N})
+			}
+		}
+		cerr := withCompaction(e, f)
+		events := rec.Stop()
+		if cerr != nil {
+			return cerr
+		}
+		if os.Getenv("VH_DEBUG_EV") != "" {
+			for _, ev := range events {
+				if ev.N > 0 {
+					fmt.Fprintf(os.Stderr, "EV %3d %-8s %-5s %s -> %s\n", ev.N, ev.Op, ev.Class, ev.Path, ev.To)
+				}
+			}
+		}
+		var tev []map[string]interface{}
+		for _, ev := range events {
+			if ev.N == 0 {
+				continue
+			}
+			base := filepath.Base(ev.Path)
+			switch {
+			case ev.Class == "init" && ev.Op == "create":
+				tev = append(tev, map[string]interface{}{"ev": "WriteNew", "f": base})
+			case ev.Class == "clog" && ev.Op == "create":
+				tev = append(tev, map[string]interface{}{"ev": "LogCreate"})
+			case ev.Class == "clog" && ev.Op == "write":
+				tev = append(tev, map[string]interface{}{"ev": "LogWrite"})
+			case ev.Class == "clog" && ev.Op == "sync":
+				tev = append(tev, map[string]interface{}{"ev": "LogSync"})
+			case ev.Class == "clog" && ev.Op == "remove":
+				tev = append(tev, map[string]interface{}{"ev": "LogRemove"})
+			case ev.Op == "rename" && ev.Class == "init":
+				tev = append(tev, map[string]interface{}{"ev": "RenameNew", "f": base})
+			case ev.Op == "rename" && ev.Class == "tssp":
+				tev = append(tev, map[string]interface{}{"ev": "DeleteOld", "f": base})
+			case ev.Op == "remove" && ev.Class == "tssp":
+				tev = append(tev, map[string]interface{}{"ev": "DeleteOld", "f": base})
+			case ev.Op == "remove" && ev.Class == "init":
+				tev = append(tev, map[string]interface{}{"ev": "DeleteOld", "f": base})
+			}
+		}
+		if len(tev) > 0 {
+			res.Tev = append(res.Tev, tev)
+			res.Reorgs++
+		}
+		if len(imgs) == 0 {
+			return nil
+		}
+		// stop the live engine, set its tree aside, restart on every image
+		if err := e.Close(); err != nil {
+			return fmt.Errorf("close before crash replay: %w", err)
+		}
+		e = nil
+		live := dir + ".live"
+		if err := os.Rename(dir, live); err != nil {
+			return err
+		}
+		restart := func(label string) (*engx.Env, bool) {
+			e2, err := engx.Open(dir, opts)
+			if err != nil {
+				if strings.Contains(err.Error(), "cannot open index") {
+					res.IndexInconclusive++
+					return nil, true
+				}
+				res.OK = false
+				res.Detail = fmt.Sprintf("%s: restart failed: %v", label, err)
+				return nil, false
+			}
+			return e2, true
+		}
+		for _, im := range imgs {
+			if !res.OK {
+				break
+			}
+			label := fmt.Sprintf("step %d (%s): crash after fs event %d of the reorganisation (%v)", res.Step, st.A, im.n, describeEvent(events, im.n))
+			if err := engx.RestoreImage(im.dir, dir); err != nil {
+				res.Infra = "restore: " + err.Error()
+				break
+			}
+			res.Images++
+			var nested []string
+			if rng.Intn(3) == 0 {
+				rec.Start(dir)
+				rec.After = func(ev crashfs.Event) {
+					if ev.N == 0 || ev.Class == "wal" {
+						return
+					}
+					d := filepath.Join(imgRoot, fmt.Sprintf("n%d-%d", im.n, ev.N))
+					if engx.CopyTree(dir, d) == nil {
+						nested = append(nested, d)
+					}
+				}
+			}
+			e2, ok := restart(label)
+			rec.Stop()
+			if !ok {
+				break
+			}
+			if e2 != nil {
+				d := readCheck(e2, conc, st.Exp, conc.order, tmin, tmax, true)
+				if d == "" {
+					d = readCheck(e2, conc, st.Exp, conc.order, tmin, tmax, false)
+				}
+				_ = e2.Close()
+				if d != "" {
+					res.OK = false
+					res.Detail = label + ": contents after restart differ from the contents before the reorganisation: " + d
+					break
+				}
+			}
+			for _, nd := range nested {
+				if engx.RestoreImage(nd, dir) != nil {
+					continue
+				}
+				res.Nested++
+				e3, ok := restart(label + ", second crash inside recovery")
+				if !ok {
+					break
+				}
+				if e3 != nil {
+					d := readCheck(e3, conc, st.Exp, conc.order, tmin, tmax, true)
+					_ = e3.Close()
+					if d != "" {
+						res.OK = false
+						res.Detail = label + ", then a second crash inside recovery: contents differ: " + d
+						break
+					}
+				}
+			}
+		}
+		os.RemoveAll(dir)
+		if err := os.Rename(live, dir); err != nil {
+			return err
+		}
+		var err error
+		e, err = engx.Open(dir, opts)
+		if err != nil {
+			e = nil
+			return fmt.Errorf("reopen live tree: %w", err)
+		}
+		setSmallCompactionGroups()
+		return nil
+	}
 	for i, st := range lc.Hist {
 		res.Step = i
 		res.Action = st.A
@@ -397,11 +623,21 @@ func runLayoutCase(lc *layoutCase, root string) (res caseResult) {
 			}
 			wm.write(rows)
 			unflushed = append(unflushed, rows)
+			if v := os.Getenv("VH_SLEEP_AFTER_WRITE_MS"); v != "" {
+				var ms int
+				fmt.Sscanf(v, "%d", &ms)
+				time.Sleep(time.Duration(ms) * time.Millisecond)
+			}
 			if newSeries {
 				e.IndexFlush()
 			}
 		case "Flush":
 			e.Flush()
+			if v := os.Getenv("VH_SLEEP_AFTER_FLUSH_MS"); v != "" {
+				var ms int
+				fmt.Sscanf(v, "%d", &ms)
+				time.Sleep(time.Duration(ms) * time.Millisecond)
+			}
 			wm.flush(unflushed)
 			unflushed = nil
 		case "LevelCompact":
@@ -411,17 +647,17 @@ func runLayoutCase(lc *layoutCase, root string) (res caseResult) {
 			if len(a) > 0 {
 				lvl = uint16(a[0])
 			}
-			if err := withCompaction(e, func(s *immutable.MmsTables) error { return s.LevelCompact(lvl, engx.ShardID) }); err != nil {
+			if err := doCompact(st, func(s *immutable.MmsTables) error { return s.LevelCompact(lvl, engx.ShardID) }); err != nil {
 				res.OK, res.Detail = false, "LevelCompact: "+err.Error()
 				return
 			}
 		case "FullCompact":
-			if err := withCompaction(e, func(s *immutable.MmsTables) error { return s.FullCompact(engx.ShardID) }); err != nil {
+			if err := doCompact(st, func(s *immutable.MmsTables) error { return s.FullCompact(engx.ShardID) }); err != nil {
 				res.OK, res.Detail = false, "FullCompact: "+err.Error()
 				return
 			}
 		case "MergeOOO":
-			if err := withCompaction(e, func(s *immutable.MmsTables) error { return s.MergeOutOfOrder(engx.ShardID, true, true) }); err != nil {
+			if err := doCompact(st, func(s *immutable.MmsTables) error { return s.MergeOutOfOrder(engx.ShardID, true, true) }); err != nil {
 				res.OK, res.Detail = false, "MergeOutOfOrder: "+err.Error()
 				return
 			}
@@ -452,6 +688,9 @@ func runLayoutCase(lc *layoutCase, root string) (res caseResult) {
 			}
 		default:
 			res.Infra = "unknown action " + st.A
+			return
+		}
+		if !res.OK || res.Infra != "" {
 			return
 		}
 		// shape drift (not a verdict): number of ordered / out-of-order files
@@ -524,7 +763,9 @@ func replayLayout(args []string) int {
 			fmt.Fprintln(os.Stderr, "bad case:", err)
 			return 2
 		}
+		knownReadErrors = 0
 		r := withWatchdog(lc.ID, 120, func() caseResult { return runLayoutCase(&lc, root) })
+		r.KnownReadErrors = knownReadErrors
 		if !r.OK {
 			bad++
 		}
